@@ -90,7 +90,7 @@ pub fn spec(prop: &str) -> Spec {
             assumptions,
         },
         "C14" => Spec {
-            rule: "outer loop: seeded small workloads (<= 3 chromosomes, <= 40 items each, calm schedule, a third with short writes, a sixth with a refused input); inner loops exhaustive: every crash point k of the recorded sink operation log and every (write|seek|flush, k, one-shot|sticky) failing operation. evaluations = workloads; coverage.counters.sub_evaluations = crash images + failing-sink runs actually executed; distinct = distinct workload hash; non-trivial = at least one data section".to_string(),
+            rule: "outer loop: seeded small workloads (<= 3 chromosomes, <= 40 items each, half under a seeded schedule, a third with short writes, a sixth with a refused input); inner loops exhaustive: every crash point k of the recorded sink operation log and every (write|seek|flush, k, one-shot|sticky) failing operation. evaluations = workloads; coverage.counters.sub_evaluations = crash images + failing-sink runs actually executed; distinct = distinct workload hash; non-trivial = at least one data section".to_string(),
             real: PIPE_REAL.to_vec(),
             stub: PIPE_STUB.to_vec(),
             assumptions,
